@@ -389,6 +389,14 @@ func GenDaemon(prop string, seed uint64, tier string) *DaemonScenario {
 			}
 		}
 	}
+	if (prop == "C06" || prop == "C07") && r.Bool(40) {
+		// one slow node: everything to and from it is late, by less than the kickoff grace period and the phases
+		lim := int(periodMs)
+		if k := sc.KickoffS * 1000; k < lim {
+			lim = k
+		}
+		add(Act{AtMs: 100, Kind: "slow", Node: r.Intn(sc.N), A: int64(r.Range(100, lim*8/10))})
+	}
 	if use["loss"] {
 		sc.Net.DropPct, sc.Net.DupPct = r.Range(1, 15), r.Range(0, 10)
 		if prop == "C06" || prop == "C07" {
